@@ -29,6 +29,11 @@ import json  # noqa: E402
 from sim import simfs  # noqa: E402
 from sim.c09model import Model  # noqa: E402
 
+try:
+    import numpy as NP  # optional: only used to hand in versions of a float SUBCLASS
+except Exception:  # noqa: BLE001
+    NP = None
+
 GRID = [round(4.0 + 0.2 * i, 1) for i in range(23)]
 EXPORT_NAMES = ["style", "label", "scalebar", "legend", "web", "class", "symbol", "leader", "reference", "querymap"]
 
@@ -134,7 +139,7 @@ class C09(core.Check):
                 via = r.choice(["validator", "validator", "validator", "module", "fresh"])
                 if via == "module" and it["root"] != "map":
                     via = "validator"
-                ops.append({"op": "validate", "item": it, "version": v, "rel": rel, "via": via, "as_list": r.random() < 0.1})
+                ops.append({"op": "validate", "item": it, "version": v, "rel": rel, "via": via, "as_list": r.random() < 0.1, "np_version": r.random() < 0.06})
             elif c < 0.8:
                 ops.append({"op": "export", "schema": r.choice(EXPORT_NAMES + ([last["root"]] if last and last["root"] not in ("map", "layer") else [])),
                             "version": r.choice([None, None] + GRID + [7, 8]) if r.random() < 0.7 else (last["bounds"][0] if last else 7.6)})
@@ -207,6 +212,8 @@ class C09(core.Check):
             name = op["op"]
             fired_before = len(fs.fired_faults)
             ver = op.get("version")
+            if op.get("np_version") and ver and NP is not None:
+                ver = NP.float64(ver)  # a float subclass, as numpy.nextafter() or an array element gives
             also_fresh = rng.random() < case.get("p_fresh", 0.15)
             if name == "validate":
                 it = op["item"]
